@@ -116,7 +116,7 @@ CLAIMED.update({
                     '(async/await erased by a fixed rewriting whose idioms R1-R4 are modelled once), so both are proved to have the same packets, handler calls, '
                     'results and exceptions as far as the contracts of C03-C13/C15-C20 constrain them; in addition every coroutine-vs-function dispatch site is '
                     'classified (awaited iff coroutine function) and the pairs not under any contract are listed in the evidence as uncovered.',
-            'category': 'translation_validation', 'design_ref': '8.14', 'technique': GEN + ' applied to both members of each twin pair',
+            'design_ref': '8.14', 'technique': GEN + ' applied to both members of each twin pair',
             'note': TB + 'equivalence is relative to the contracts: behaviour the contracts leave open (log messages, internal task scheduling order) is not compared; '
                          'twin pairs without a contract are listed under coverage.not_reached.'},
     'C15': {'text': 'Unbounded proof with an explicit fault model: the listener loop body is executed with the received message ARBITRARY (any value, any type) and '
